@@ -68,6 +68,7 @@ def h_mutex(ctx, cls, kind, gi):
         return      # a group naming a repeated or undeclared child: reported under C13
     kw = {k: v for k, v in kwargs.items() if k not in group}
     count = 0
+    spelled = {}
     for m in members:
         if ctx.bool("p_" + m):
             kw[m] = ofxgen.value_for(K, m)
@@ -79,6 +80,25 @@ def h_mutex(ctx, cls, kind, gi):
     ctx.check("keyword construction with an exclusivity group violated is rejected", ctx.implies(violating, not ok))
     if not has_custom_validation(K):
         ctx.check("keyword construction with the group satisfied is accepted", ctx.implies(not violating, ok))
+    # a member spelled out without a value (None, or the empty text of a data element) is not a member that is present:
+    # whatever is accepted must satisfy the group as an instance
+    absent = [m for m in members if m not in kw]
+    if absent:
+        m0 = absent[ctx.choice("spelled", list(range(len(absent))))]
+        blank = ctx.choice("blank", [None, ""]) if isinstance(spec[m0], (Types.String, Types.OneOf)) else None
+        kw2 = dict(kw)
+        kw2[m0] = blank
+        inst = None
+        try:
+            with warnings.catch_warnings(record=True):
+                warnings.simplefilter("always")
+                inst = K(*args, **kw2)
+        except REJECT:
+            inst = None
+        if inst is not None:
+            have = len([m for m in members if getattr(inst, m) is not None])
+            ctx.check("every instance that exists satisfies its exclusivity groups (members spelled out without a value do not count)",
+                      have <= 1 if kind == "optionalMutexes" else have == 1)
     # same deviation through the element tree
     root = ET.Element(K.__name__)
     for a in K.spec:
